@@ -97,6 +97,19 @@ def monitor(script, c):
         if len(t) > 1 and t[0] == "#" and t[1] == "M":
             o = out.get(i - 1, [])
             if len(o) > 2 and int(o[2], 16) == 0:
+                if len(t) > 2 and t[2] == "s":
+                    # a body spliced with another genuine packet's trailer: when the two bodies are equal the result IS the
+                    # other genuine packet, not an altered one
+                    import re
+                    m = re.match(r"@([0-9a-f]+)<([0-9a-f]+)&([0-9a-f]+):([0-9a-f]+)$", sl[i - 2].split("|")[1].strip())
+                    if m:
+                        a, cut, b, off = (int(x, 16) for x in m.groups())
+                        oa, ob = out.get(a, []), out.get(b, [])
+                        if len(oa) > 4 and len(ob) > 4:
+                            A = bytes.fromhex(oa[4]) if oa[4] != "-" else b""
+                            B = bytes.fromhex(ob[4]) if ob[4] != "-" else b""
+                            if A[:cut] + B[off:] in (A, B):
+                                continue
                 kind = {"~": "bit flip", "<": "truncation", "+": "extension", "cross": "RTP/RTCP splice", "s": "tag/trailer/MKI substitution"}.get(t[2] if len(t) > 2 else "", "mutation")
                 hits.append({"what": f"a packet altered by {kind} was accepted", "signature": "mutated-accepted:" + kind.replace(" ", "-") + ":" + o[1],
                              "detail": f"line {i-1}: {sl[i-2][:120]}"}); break
